@@ -325,3 +325,52 @@ def classify_weak(val, p):
     if v[0] in ('pcall', 'call') and v[1].endswith('Weak::<T>::new'):
         return 'cleared'
     return 'other:' + show(noepoch(v))
+
+
+def check_result_part(ctx, rep, rule='S-result'):
+    """third part of compute_fields: result_transition := None when in_result(event, operation) is false, else
+    determine_result_transition(event, operation); both evaluated after the flags were written"""
+    b, ps = rep.explore(ctx, COMPUTE, rule)
+    if b is None:
+        return
+    n = 0
+    seen = set()
+    for p in ps:
+        if p.end != 'return':
+            continue
+        st = [s for s in event_cell_stores(p) if s[2] == 'result_transition']
+        flag_idx = [s[0] for s in event_cell_stores(p) if s[2] in ('in_out', 'other_in_out')]
+        ok = len(st) == 1 and obj_root(st[0][1], ALIAS_CF) == 'event'
+        what = 'missing'
+        if ok:
+            i, ptr, fld, val = st[0]
+            v = strip_upd(val)
+            # the governing in_result call
+            ir = [(j, e) for j, e in enumerate(p.events) if e['k'] == 'call' and e['depth'] == 0 and e['callee'] == IN_RESULT]
+            ok = len(ir) == 1 and flag_idx and ir[0][0] > max(flag_idx)
+            if ok:
+                e = ir[0][1]
+                ok = obj_root(e['args'][0], ALIAS_CF) == 'event' and strip_upd(e['args'][1])[0] == 'param'
+                res = None
+                for (cv, cc) in p.conds:
+                    if noepoch(strip_upd(cv)) == noepoch(strip_upd(e['ret'])):
+                        res = cc[1]
+                if v[0] == 'agg' and v[2] == 'None':
+                    what = 'None'
+                    ok = ok and res is False
+                elif v[0] in ('pcall', 'call') and v[1] == DET_TRANS:
+                    what = 'determine_result_transition'
+                    ok = ok and res is True and obj_root(v[2][0], ALIAS_CF) == 'event' and strip_upd(v[2][1])[0] == 'param'
+                else:
+                    what = show(noepoch(v))[:60]
+                    ok = False
+                key = (what, res)
+                if key in seen and ok:
+                    continue
+                seen.add(key)
+        n += 1
+        rep.ob(rule, 'result_transition=%s' % what, ok,
+               'compute_fields must store None when in_result(event, operation) is false and determine_result_transition(event, '
+               'operation) otherwise, both computed after in_out/other_in_out were written; found %s' % what,
+               loc=b.loc(b.j['line_lo']), reason='dominance')
+    rep.floor(rule, 'result cases', n, 2)
